@@ -42,6 +42,9 @@ pub enum TOp {
     Create(u32),
     Write(u32, W),
     Submit(u32),
+    /// a batch that is created and later submitted without any write in it
+    /// (no marker either); added after seeded change C10-3
+    CreateEmpty(u32),
 }
 
 #[derive(Clone, Debug, Serialize, Deserialize)]
@@ -69,7 +72,11 @@ pub fn generate(seed: u64, thorough: bool) -> Scenario {
             let can_create = next < n_batches && open.len() < 3;
             match r.below(10) {
                 0..=2 if can_create => {
-                    ops.push(TOp::Create(next));
+                    if r.chance(1, 6) {
+                        ops.push(TOp::CreateEmpty(next));
+                    } else {
+                        ops.push(TOp::Create(next));
+                    }
                     open.push(next);
                     next += 1;
                 }
@@ -123,6 +130,8 @@ struct Shared {
     /// epoch -> writes in issue order
     batches: BTreeMap<u64, Vec<W>>,
     submit_order: Vec<u64>,
+    /// epochs of batches without any write (they carry no marker)
+    empty: BTreeSet<u64>,
 }
 
 pub fn run(sc: &Scenario, replay: Option<Vec<String>>) -> Outcome {
@@ -155,8 +164,18 @@ pub fn run(sc: &Scenario, replay: Option<Vec<String>>) -> Outcome {
                         shared.lock().batches.insert(e, Vec::new());
                         open.insert(b, (e, wb));
                     }
+                    TOp::CreateEmpty(b) => {
+                        LAST_CREATED.with(|c| c.set(None));
+                        let wb = wm.new_write_batch();
+                        let e = LAST_CREATED.with(std::cell::Cell::get).expect("wb_created event");
+                        shared.lock().empty.insert(e);
+                        open.insert(b, (e, wb));
+                    }
                     TOp::Write(b, w) => {
                         let Some((e, wb)) = open.get_mut(&b) else { continue };
+                        if shared.lock().empty.contains(e) {
+                            continue;
+                        }
                         match &w {
                             W::Sm(k, v) => drive(sm.insert(*k, SmVal(*v), wb)),
                             W::SmDel(k) => drive(sm.remove(k, wb)),
@@ -228,6 +247,10 @@ pub fn run(sc: &Scenario, replay: Option<Vec<String>>) -> Outcome {
                 multi += 1;
             }
             for l in &pc.logical {
+                if l.is_empty() {
+                    // an empty batch: nothing identifies it
+                    continue;
+                }
                 let marks: Vec<u64> = l
                     .iter()
                     .filter_map(|op| match op {
@@ -307,7 +330,7 @@ pub fn run(sc: &Scenario, replay: Option<Vec<String>>) -> Outcome {
             }
         }
     }
-    let want_epochs: Vec<u64> = (0..n).collect();
+    let want_epochs: Vec<u64> = sh.batches.keys().copied().collect();
     if seen_epochs != want_epochs {
         let dup: BTreeSet<u64> = seen_epochs
             .iter()
@@ -318,7 +341,7 @@ pub fn run(sc: &Scenario, replay: Option<Vec<String>>) -> Outcome {
         out.fail(
             "batch_order",
             format!(
-                "the store received the batches as {seen_epochs:?}; created were 0..{n} (missing {missing:?}, duplicated {dup:?}); submission order was {:?}",
+                "the store received the batches as {seen_epochs:?}; created (with a write in them) were {want_epochs:?} of {n} (missing {missing:?}, duplicated {dup:?}); submission order was {:?}",
                 sh.submit_order
             ),
         );
